@@ -124,6 +124,8 @@ Inductive request :=
 | RDeleteFile (p : bytes) | RMkdir (p : bytes) | RRmdir (p : bytes) | RReadDirEntryV2
 | RStatFile (p : bytes) | RGetDirSize (p : bytes) | RReadDir.
 
+Definition is_nil {A} (l : list A) : bool := match l with [] => true | _ => false end.
+
 Definition closefile_name : bytes := [67;76;79;83;69;70;73;76;69].   (* "CLOSEFILE" *)
 
 Record outcome := { o_world : world; o_conn : conn; o_out : bytes; o_close : bool }.
@@ -345,6 +347,7 @@ Definition step (c : cfg) (w : world) (k : conn) (rq : request) : outcome :=
       | Ok fi => done w k (enc_stat (eff_size fi) (fi_mtime fi) masked_time masked_time (fi_dir fi))
       end
   | RDeleteFile p | RRmdir p =>
+      if is_nil (rooted_elems p) then done w k (enc_result32 false) else     (* the served root itself is refused *)
       if negb (allow_write c) then done w k (enc_result32 false) else
       match fs_remove (tmut c) (plen c) w (abs_path c (rooted_elems p)) with
       | Err _ => done w k (enc_result32 false)
